@@ -286,6 +286,11 @@ func (s *Synchronizer) advanceView(syncInfo hotstuff.SyncInfo) {
 	}
 
 	newView := s.state.NextView()
+	for newView <= view {
+		// the certificate is for a later view than ours: catch up with it instead of
+		// trailing the other replicas by a constant number of views forever.
+		newView = s.state.NextView()
+	}
 
 	s.lastTimeout = nil
 	s.duration.ViewStarted()
